@@ -193,6 +193,39 @@ def WFMultivariant (p : Multivariant) : Prop :=
 
 instance (p : Multivariant) : Decidable (WFMultivariant p) := by unfold WFMultivariant; exact inferInstance
 
+/-! ## The float envelope, instantiated at the float fields of one value
+
+  `FloatEnvelope` / `FloatEnvelope3` (Prim.lean) claim the following for EVERY duration / frame rate
+  in range.  For one given value it is a finite computation on the soft float, hence decidable. -/
+
+/-- `q` is a correct text quantum for the duration `d`, and the text decodes back within the envelope
+    and prints as the same text again -/
+def durFloatCheck (d q : Int) : Bool :=
+  durFmt5 d == dec5 q && decide ((q * 10000 - d).natAbs ≤ 5000) &&
+  (match durUnmarshal (dec5 q) with
+   | .ok d' => decide ((d' - q * 10000).natAbs ≤ 1) && durFmt5 d' == dec5 q
+   | .error _ => false)
+
+/-- the envelope holds at the duration `d` (the two candidates are the neighbours of `d / 10 µs`) -/
+def DurFloatOK (d : Int) : Prop :=
+  durFloatCheck d (d / 10000) = true ∨ durFloatCheck d (d / 10000 + 1) = true
+
+instance (d : Int) : Decidable (DurFloatOK d) := by unfold DurFloatOK; exact inferInstance
+
+/-- the envelope holds at the frame rate `f`: its 3-decimal text parses back to `f` -/
+def FrFloatOK (f : F64) : Prop :=
+  match parseFloat (F64.fmtFixed 3 f) with
+  | .ok g => g = f
+  | .error _ => False
+
+instance (f : F64) : Decidable (FrFloatOK f) := by
+  unfold FrFloatOK; cases parseFloat (F64.fmtFixed 3 f) <;> exact inferInstance
+
+def FloatOK (p : Multivariant) : Prop :=
+  OptAll p.start (fun t => DurFloatOK t.timeOffset) ∧ ∀ v ∈ p.variants, OptAll v.frameRate FrFloatOK
+
+instance (p : Multivariant) : Decidable (FloatOK p) := by unfold FloatOK; exact inferInstance
+
 /-! ## Quantisation of the round trip -/
 
 /-- TIME-OFFSET comes back rounded to the 10 µs of the text form (either neighbour at an exact
